@@ -109,3 +109,49 @@ Definition extended_data {A} (sd : side) (l y r : list A) : list A :=
   | SLeft => l ++ y
   | SBoth => l ++ y ++ r
   end.
+
+(* ------------------------------------------------------------------ sort_keys entries of any trailing shape *)
+(* _return_results does params[key] = params[key][self._inverted_order] for every key of sort_keys
+   that is PRESENT in params, whatever the number of dimensions of the value: the index array acts
+   on the leading axis (1-D) / the two leading axes (2-D).  An entry of shape (N,), (N, k), ... is a
+   list of N "rows" of an arbitrary type E (a number, a list of k numbers, ...); the baseline keeps
+   its own element type D.  [wrapper] / [wrapper2] above are the instances E = D. *)
+Section WrapperG.
+  Variable D E : Type.
+  Variable d0 : D.
+  Variable e0 : E.
+  Variable body : list Z -> list D -> option (list D) -> list D * list (list E).
+
+  Definition wrapperG (x : list Z) (y : list D) (w : option (list D)) : list D * list (list E) :=
+    let o := determine_sorts x in
+    let so := option_map fst o in
+    let io := option_map snd o in
+    let xs := sort_array 0%Z x so in
+    let ys := sort_array d0 y so in
+    let ws := option_map (fun w' => sort_array d0 w' so) w in
+    let r := body xs ys ws in
+    (sort_array d0 (fst r) io,                          (* baseline *)
+     map (fun p => sort_array e0 p io) (snd r)).        (* for key in sort_keys: if key in params: ...[inverted] *)
+
+  Definition permute_outG (pi : list nat) (r : list D * list (list E)) : list D * list (list E) :=
+    (gather d0 (fst r) pi, map (fun p => gather e0 p pi) (snd r)).
+
+  Variable body2 : list Z -> list Z -> list (list D) -> option (list (list D))
+                   -> list (list D) * list (list (list E)).
+
+  Definition wrapper2G (x z : list Z) (y : list (list D)) (w : option (list (list D)))
+    : list (list D) * list (list (list E)) :=
+    let ox := determine_sorts x in
+    let oz := determine_sorts z in
+    let so := mk_order2 (option_map fst ox) (option_map fst oz) in
+    let io := mk_order2 (option_map snd ox) (option_map snd oz) in
+    let xs := sort_array 0%Z x (option_map fst ox) in
+    let zs := sort_array 0%Z z (option_map fst oz) in
+    let ys := sort_array2d D d0 y so in
+    let ws := option_map (fun w' => sort_array2d D d0 w' so) w in
+    let r := body2 xs zs ys ws in
+    (sort_array2d D d0 (fst r) io, map (fun p => sort_array2d E e0 p io) (snd r)).
+
+  Definition permute_out2G (px pz : list nat) (r : list (list D) * list (list (list E))) :=
+    (gather2 D d0 (fst r) px pz, map (fun p => gather2 E e0 p px pz) (snd r)).
+End WrapperG.
